@@ -268,6 +268,28 @@ pub fn c14(h: &mut H) {
             // field-wise edits of the serialized ZKPoK
             let mut lv = Vec::new();
             leaves(&iss.zk, String::new(), &mut lv);
+            // group elements replaced by their NEGATIVES modulo N (the family behind findings F16-F20): one class per kind
+            // of field, so that the known ones are listed one by one and anything else is a violation
+            if n <= 2 && !with_trusted {
+                for (li, (path, val)) in lv.iter().enumerate() {
+                    if *val <= 0 || *val >= k.n_mod || val.significant_bits() + 64 < k.n_mod.significant_bits() { continue; }
+                    if path.ends_with(".C") || path.ends_with(".challenge") || path.ends_with(".randomness") { continue; }
+                    let last = path.rsplit('.').next().unwrap_or("");
+                    let stem = last.split('[').next().unwrap_or("");
+                    if stem.starts_with("s_") || stem.starts_with("D_") || stem == "d" || stem.starts_with("d_") || stem == "s1" || stem == "s2" { continue; }
+                    let mut z = iss.zk.clone();
+                    let mut cnt = 0usize;
+                    let nn = k.n_mod.clone();
+                    let f = move |x: &Integer| Integer::from(&nn - x);
+                    map_leaf(&mut z, &mut cnt, li, &f);
+                    h.stat("C14.leaf_negated");
+                    let v = zkverify(h, &k.pk, &bases, &z, &cv, ctv.as_ref(), iss.cpk.as_ref(), &hidden);
+                    let class = if path.ends_with(".F") { "C14.leaf_negated_F".to_string() }
+                        else if path.ends_with("].E") || path.ends_with(".E") { "C14.leaf_negated_E".to_string() }
+                        else { format!("C14.leaf_negated:{}", stem) };
+                    h.expect(!v.is_true(), &class, &format!("verify_proof accepted a proof with the group element {} replaced by its negative modulo N", path), &[h.last()]);
+                }
+            }
             // every leaf replaced by another representative of the same residue modulo N (value + N, value - N)
             if n <= 2 {
                 for (li, (path, _)) in lv.iter().enumerate() {
